@@ -22,7 +22,7 @@ TOGGLES = [
     "alias_scalars", "component_parameters", "component_bodies", "component_responses", "path_item_parameters",
     "same_name_two_locations", "multi_body", "multipart", "form", "octet", "text_responses", "plus_json",
     "no_content", "security", "tags", "defaults", "descriptions", "query_arrays", "header_params",
-    "cookie_params", "shared_paths", "inline_response_objects", "shuffle_decl", "media_type_params", "item_level_name_clash", "multi_media_responses", "wrapped_refs", "rich_form_fields", "reserved_param_names", "python_name_clash",
+    "cookie_params", "shared_paths", "inline_response_objects", "shuffle_decl", "media_type_params", "item_level_name_clash", "multi_media_responses", "wrapped_refs", "rich_form_fields", "reserved_param_names", "python_name_clash", "noise_responses", "trailing_slash_paths", "prefix_names", "inline_in_aliases", "inline_allof", "shared_body_models", "decorations",
 ]
 
 PROP_VOCAB = [
@@ -241,6 +241,12 @@ class DocGen:
                 s["additionalProperties"] = True
         return self.desc(s)
 
+    def _inline_allof_parents(self) -> list[str]:
+        """Parents for an inline composition: plain object models whose definition already exists (no cycles, and
+        their property names are known so that the extra properties cannot conflict)."""
+        return [n for n in self.refs_of_kind(("model",)) if n in self.schemas and "properties" in self.schemas[n]
+                and n != getattr(self, "_current_schema", None)]
+
     def prop_schema(self, depth: int, allow_array: bool = True) -> dict:
         """Schema for a model property / array item / response / json body."""
         r = self.rng
@@ -249,6 +255,8 @@ class DocGen:
             opts.append(("ref", getattr(self, "ref_weight", 3.0)))
         if self.schema_kind and self.on("wrapped_refs"):
             opts.append(("wrapref", 1.2))
+        if self.on("inline_allof") and depth < 2 and self._inline_allof_parents():
+            opts.append(("inline_allof", 0.8))
         if self.on("enums"):
             opts.append(("enum", 1.5))
         if allow_array:
@@ -267,6 +275,12 @@ class DocGen:
         if kind == "ref":
             # models dedicated to form/multipart bodies may hold binary fields: never reachable from JSON contexts
             return self.ref(r.choice([n for n, k in self.schema_kind.items() if k != "bodymodel"] or list(self.schema_kind)))
+        if kind == "inline_allof":
+            # an inline composition: a referenced parent plus inline extra properties, as the type of a property
+            parent = r.choice(self._inline_allof_parents())
+            taken = self._all_prop_names(parent)
+            extra = {n_: {"type": r.choice(["string", "integer", "boolean"])} for n_ in self.pick_names(PROP_VOCAB, 2, taken)}
+            return {"allOf": [self.ref(parent), {"type": "object", "properties": extra}]}
         if kind == "wrapref":
             # the usual way to attach a description to a reference: a one-element allOf/oneOf/anyOf wrapper
             tgt = self.ref(r.choice([n for n, k in self.schema_kind.items() if k != "bodymodel"] or list(self.schema_kind)))
@@ -297,6 +311,14 @@ class DocGen:
     def build_schemas(self, n: int) -> None:
         r = self.rng
         names = ["M" + self.token() for _ in range(n)]
+        if self.on("prefix_names") and n >= 2:
+            # component names that EXTEND another component's name ("Order" next to "OrderItem"); the suffix is not a
+            # property name, so inline children of the shorter one cannot collide with the longer one
+            for i in range(1, n):
+                if r.random() < 0.3:
+                    names[i] = names[r.randrange(i)][:4] + r.choice(["Qz", "Qx", "Qw"]) + CONS[i % len(CONS)]
+            if len(set(n_.lower() for n_ in names)) != len(names):
+                names = ["M" + self.token() for _ in range(n)]
         kinds = []
         for i, _ in enumerate(names):
             opts = [("model", 6.0)]
@@ -320,6 +342,7 @@ class DocGen:
             pass  # restriction applied below per schema
         for i, (nm, k) in enumerate(zip(names, kinds)):
             earlier = names[:i]
+            self._current_schema = nm
             if k == "model":
                 visible = dict(self.schema_kind)
                 if not self.on("self_refs"):
@@ -374,8 +397,17 @@ class DocGen:
                 tgt = [x for x in names if x != nm and kinds[names.index(x)] in ("model", "allof")]
                 if len(tgt) >= 2:
                     s = {r.choice(["oneOf", "anyOf"]): [self.ref(x) for x in r.sample(tgt, 2)]}
+                elif tgt and self.on("inline_in_aliases"):
+                    s = {"oneOf": [self.ref(tgt[0])]}
                 else:
                     s = {"oneOf": [{"type": "string"}, {"type": "integer"}]}
+                if self.on("inline_in_aliases") and tgt and r.random() < 0.5:
+                    # an INLINE object listed before a reference: if the reference is declared later, the first parse
+                    # attempt registers the inline class and is then abandoned and retried
+                    key = next(iter(s))
+                    inline = {"type": "object", "properties": {"inl_" + self.token(): {"type": "string"}}, "required": []}
+                    inline["required"] = list(inline["properties"])
+                    s[key] = [inline] + [m for m in s[key] if "$ref" in m]
             else:  # scalar alias
                 s = scalar_schema(r.choice(["string", "integer", "date", "date-time", "uuid", "number"]))
             self.schemas[nm] = s
@@ -478,6 +510,9 @@ class DocGen:
         r = self.rng
         models = self.refs_of_kind(("model", "allof"))
         c = r.random()
+        shareable = getattr(self, "_shareable_bodies", None) or []
+        if self.on("shared_body_models") and shareable and r.random() < 0.3:
+            return self.ref(r.choice(shareable))
         if models and c < 0.5:
             return self.ref(r.choice(models))
         if models and c < 0.65:
@@ -488,15 +523,24 @@ class DocGen:
             return {"type": "array", "items": scalar_schema(r.choice(["string", "integer", "date", "uuid", "number"]))}
         return scalar_schema(r.choice(["string", "integer", "number", "boolean"]))
 
-    def dedicated_model(self, multipart: bool = False, form: bool = False) -> str:
+    def dedicated_model(self, multipart: bool = False, form: bool = False, exclude: set | None = None) -> str:
         """A fresh component model used for a form / multipart body (so Python types stay distinct
         per media type in multi-body operations)."""
+        shareable = getattr(self, "_shareable_bodies", None)
+        if shareable is None:
+            shareable = self._shareable_bodies = []
+        cands = [x for x in shareable if x not in (exclude or set())]
+        if self.on("shared_body_models") and cands and self.rng.random() < 0.4:
+            # the same component as the body of ANOTHER operation, possibly under another media type (never twice in one
+            # operation: the same Python type under two media types makes 'the declared media type' of an argument ambiguous)
+            return self.rng.choice(cands)
         nm = "M" + self.token()
-        saved_shuffle = None
         s = self.object_schema(1, n_props=self.rng.randint(1, 4), multipart=multipart, form=form)
         self.schemas[nm] = s
         self.schema_kind[nm] = "bodymodel"
-        del saved_shuffle
+        if not any(isinstance(v, dict) and v.get("format") == "binary" for v in s["properties"].values()) and all(
+                isinstance(v, dict) and v.get("type") in ("string", "integer", "number", "boolean") and "format" not in v and "enum" not in v for v in s["properties"].values()):
+            shareable.append(nm)  # plain scalar fields only: encodes the same way as JSON, form and multipart
         return nm
 
     def make_request_body(self) -> dict | None:
@@ -540,13 +584,15 @@ class DocGen:
                     sch = self.json_body_schema()
                 content[mt] = {"schema": sch}
             elif k == "form":
-                m = self.dedicated_model(form=True)
+                m = self.dedicated_model(form=True, exclude=used_types)
+                used_types.add(m)
                 mt = "application/x-www-form-urlencoded"
                 if self.on("media_type_params") and r.random() < 0.3:
                     mt += "; charset=utf-8"
                 content[mt] = {"schema": self.ref(m)}
             elif k == "multipart":
-                m = self.dedicated_model(multipart=True)
+                m = self.dedicated_model(multipart=True, exclude=used_types)
+                used_types.add(m)
                 content["multipart/form-data"] = {"schema": self.ref(m)}
             elif k == "octet":
                 mt = "application/octet-stream"
@@ -644,6 +690,8 @@ class DocGen:
             if r.random() < 0.3:
                 segs.append(self.token())
             path = "/" + "/".join(segs)
+            if self.on("trailing_slash_paths") and r.random() < 0.25:
+                path += "/"  # a trailing slash is part of the path the document declares
             item: dict = {}
             path_params = [self.make_param(pn, "path") for pn in pnames]
             item_level: list[dict] = []
@@ -720,6 +768,19 @@ class DocGen:
                         comp_responses[cname] = resp
                         resp = {"$ref": f"#/components/responses/{cname}"}
                     resps[str(st)] = resp
+                if self.on("noise_responses") and r.random() < 0.3:
+                    # declared but never exercised: legal-looking responses outside the judged workload (a binary-format
+                    # schema under a text or JSON media type, an object schema under text/*); marked so that the simulated
+                    # server never serves them.  They exist because a defect may use them as a TRIGGER for shared-state damage.
+                    st_free = [x for x in (206, 207, 208, 226, 406, 411, 412, 415, 505, 507) if str(x) not in resps]
+                    st = r.choice(st_free)
+                    resps[str(st)] = {"description": "noise", "x-verif-noise": True, "content": r.choice([
+                        {"text/plain": {"schema": {"type": "string", "format": "binary"}}},
+                        {"application/json": {"schema": {"type": "string", "format": "binary"}}},
+                        {"text/html": {"schema": {"type": "object", "properties": {"a": {"type": "string"}}}}},
+                        {"application/octet-stream": {"schema": {"type": "string"}}},
+                    ])}
+                    resps = dict(sorted(resps.items())) if r.random() < 0.5 else resps
                 op["responses"] = resps
                 if self.on("security") and r.random() < 0.5:
                     op["security"] = [{"simKey": []}]
@@ -773,7 +834,7 @@ class DocGen:
         n_s, n_o = {"tiny": (r.randint(1, 2), 1), "small": (r.randint(2, 5), r.randint(1, 3)),
                     "medium": (r.randint(5, 10), r.randint(3, 8))}[self.size]
         if self.profile == "schemas":
-            n_s, n_o = max(n_s, 4), min(n_o, 2)
+            n_s, n_o = max(n_s, 4), min(n_o, getattr(self, "max_ops", 2))
         if self.profile == "operations":
             n_s = min(n_s, 4)
         self.build_schemas(n_s)
@@ -798,7 +859,88 @@ class DocGen:
             comps["securitySchemes"] = {"simKey": {"type": "apiKey", "in": "header", "name": "X-API-Key"}}
         if comps:
             doc["components"] = comps
+        if self.on("decorations"):
+            self.decorate(doc)
         return doc
+
+    # ------------------------------------------------------------------ benign decorations
+    def decorate(self, doc: dict) -> None:
+        """Sprinkle keywords that are legal and must not change behaviour: validation keywords, annotations, formats the
+        generator treats as plain, vendor extensions, document-level sections it ignores.  They widen the surface a
+        defect can hide behind without changing what the reference models expect."""
+        r = self.rng
+
+        def schema_walk(x: Any, depth: int = 0) -> None:
+            if isinstance(x, dict):
+                t = x.get("type")
+                if "$ref" not in x and isinstance(t, str) and r.random() < 0.25:
+                    if t == "string" and "format" not in x and "enum" not in x:
+                        x.update(r.choice([{"minLength": 0}, {"maxLength": 4096}, {"pattern": "^.*$"}, {"format": r.choice(["email", "password", "hostname", "byte", "uri"])}]))
+                    elif t == "integer" and "enum" not in x:
+                        x.update(r.choice([{"format": "int64"}, {"format": "int32"}, {"minimum": -(10 ** 9)}, {"maximum": 10 ** 12, "exclusiveMaximum": False} if not self.v31 else {"exclusiveMaximum": 10 ** 12}]))
+                    elif t == "number":
+                        x.update(r.choice([{"format": "double"}, {"format": "float"}, {"multipleOf": 0.5} if False else {"minimum": -1e9}]))
+                    elif t == "array":
+                        x.update(r.choice([{"minItems": 0}, {"maxItems": 1000}, {"uniqueItems": False}]))
+                    elif t == "object":
+                        x.update(r.choice([{"minProperties": 0}, {"maxProperties": 1000}, {"x-internal-id": self.token()}]))
+                if "$ref" not in x and (t is not None or "properties" in x) and r.random() < 0.15:
+                    x.update(r.choice([{"readOnly": False}, {"deprecated": True}, {"externalDocs": {"url": "https://example.com/docs"}}, {"example": "ex"},
+                                       {"x-order": r.randint(0, 9)}, {"xml": {"name": "n"}}]))
+                if ("oneOf" in x or "anyOf" in x) and r.random() < 0.3:
+                    members = x.get("oneOf") or x.get("anyOf")
+                    if all(isinstance(m, dict) and "$ref" in m for m in members):
+                        x["discriminator"] = {"propertyName": "kind"}
+                for v in x.values():
+                    schema_walk(v, depth + 1)
+            elif isinstance(x, list):
+                for v in x:
+                    schema_walk(v, depth + 1)
+
+        comps = doc.get("components") or {}
+        schema_walk(comps.get("schemas") or {})
+        for item in (doc.get("paths") or {}).values():
+            if r.random() < 0.2:
+                item["summary"] = "Path item summary"
+            if r.random() < 0.15:
+                item["servers"] = [{"url": "https://override.example.com"}]
+            for m, op in item.items():
+                if not isinstance(op, dict) or "responses" not in op:
+                    continue
+                if r.random() < 0.2:
+                    op["deprecated"] = True
+                if r.random() < 0.2:
+                    op["description"] = "Line one.\nLine two with 'quotes' and a backslash \\ here."
+                if r.random() < 0.15:
+                    op["externalDocs"] = {"url": "https://example.com/op"}
+                if r.random() < 0.15:
+                    op["x-codegen-hint"] = {"nested": [1, 2, {"k": None}]}
+                if r.random() < 0.1:
+                    op["callbacks"] = {"onEvent": {"{$request.body#/url}": {"post": {"responses": {"200": {"description": "cb"}}}}}}
+                for p_ in op.get("parameters") or []:
+                    if isinstance(p_, dict) and "$ref" not in p_ and r.random() < 0.2:
+                        p_.update(r.choice([{"deprecated": True}, {"example": "e"}, {"style": "form", "explode": True} if p_.get("in") == "query" else {"allowEmptyValue": False} if p_.get("in") == "query" else {"x-p": 1}]))
+                for resp in (op.get("responses") or {}).values():
+                    if isinstance(resp, dict) and "$ref" not in resp and r.random() < 0.2:
+                        resp["headers"] = {"X-Rate-Limit": {"schema": {"type": "integer"}, "description": "calls left"}}
+                    if isinstance(resp, dict) and "$ref" not in resp and r.random() < 0.1:
+                        resp["links"] = {"next": {"operationId": "op_none"}}
+        if r.random() < 0.3:
+            doc["servers"] = [{"url": "https://api.example.com/{v}", "variables": {"v": {"default": "v1"}}}]
+        if r.random() < 0.3:
+            doc["tags"] = [{"name": "alpha-tag", "description": "first"}, {"name": "unused"}]
+        if r.random() < 0.2:
+            doc["externalDocs"] = {"url": "https://example.com"}
+        if r.random() < 0.2:
+            doc["info"].update({"contact": {"name": "n", "email": "a@example.com"}, "license": {"name": "MIT"}, "termsOfService": "https://example.com/tos"})
+        if r.random() < 0.2:
+            doc["x-vendor"] = {"a": [1, {"b": None}]}
+        if r.random() < 0.2 and self.on("security"):
+            doc.setdefault("components", {}).setdefault("securitySchemes", {}).update(
+                {"bearer": {"type": "http", "scheme": "bearer"}, "oauth": {"type": "oauth2", "flows": {"implicit": {"authorizationUrl": "https://example.com/auth", "scopes": {"r": "read"}}}}})
+        if r.random() < 0.15:
+            doc.setdefault("components", {})["headers"] = {"Hx": {"schema": {"type": "string"}}}
+            doc["components"]["examples"] = {"Ex": {"value": {"a": 1}}}
 
 
 def generate(seed_rng: random.Random, **kw: Any) -> tuple[dict, dict]:
